@@ -960,4 +960,427 @@ theorem Inv.new (memCap fdCap : Nat) (cfg : Config) : Inv (State.new memCap fdCa
     simp [State.new, PoolInv, BufInv, FileInv, FileIno, InoComm, DiskIno, WrInv, RdInv, CommInv, memHolders,
       fdHolders]
 
+/-! ### consequences of the invariant -/
+
+theorem Inv.reader_mem_alive {s : State} (hi : Inv s) {r : Nat} {rd : Reader} (hr : s.readers[r]? = some rd)
+    (ho : rd.phase = .opened) {b rc : Nat} (hs : rd.src = .mem b rc) :
+    ∃ x : RC, s.mem.rcs[rc]? = some x ∧ x.val = b ∧ x.key = rd.key ∧ x.alive := by
+  have hok := hi.rd r rd hr
+  simp only [RdOk, ho, hs] at hok
+  obtain ⟨x, h1, h2, h3⟩ := hok
+  have hold : Reader.holdsMem rc rd = true := by simp [Reader.holdsMem, ho, hs]
+  have hheld : 1 ≤ memHolders s.readers s.writers rc := by
+    have := countP_pos_of_get (p := Reader.holdsMem rc) hr hold
+    simp only [memHolders]; omega
+  exact ⟨x, h1, h2, h3, hi.mem.alive_of_held h1 hheld⟩
+
+theorem Inv.reader_fd_alive {s : State} (hi : Inv s) {r : Nat} {rd : Reader} (hr : s.readers[r]? = some rd)
+    (ho : rd.phase = .opened) {f rc : Nat} (hs : rd.src = .fdc f rc) :
+    ∃ x : RC, s.fd.rcs[rc]? = some x ∧ x.val = f ∧ x.key = rd.key ∧ x.alive := by
+  have hok := hi.rd r rd hr
+  simp only [RdOk, ho, hs] at hok
+  obtain ⟨x, h1, h2, h3⟩ := hok
+  have hold : Reader.holdsFd rc rd = true := by simp [Reader.holdsFd, ho, hs]
+  have hheld : 1 ≤ fdHolders s.readers rc := countP_pos_of_get (p := Reader.holdsFd rc) hr hold
+  exact ⟨x, h1, h2, h3, hi.fd.alive_of_held h1 hheld⟩
+
+theorem Inv.writer_mem_alive {s : State} (hi : Inv s) {w : Nat} {wr : Writer} (hw : s.writers[w]? = some wr)
+    {rc : Nat} (hp : wr.phase = .published rc ∨ wr.phase = .written rc ∨ wr.phase = .finishing rc) :
+    ∃ x : RC, s.mem.rcs[rc]? = some x ∧ x.alive := by
+  have hold : Writer.holdsMem rc wr = true := by
+    rcases hp with hp | hp | hp <;> simp [Writer.holdsMem, hp]
+  have hheld : 1 ≤ memHolders s.readers s.writers rc := by
+    have := countP_pos_of_get (p := Writer.holdsMem rc) hw hold
+    simp only [memHolders]; omega
+  exact hi.mem.get_of_held hheld
+
+/-- the file behind an open descriptor of key `k` holds a complete committed value of `k`. -/
+theorem Inv.file_committed {s : State} (hi : Inv s) {f : Nat} {fo : FileObj} (hf : s.files[f]? = some fo) :
+    ∃ ino : Inode, s.inodes[fo.inode]? = some ino ∧ ino.st = .pub fo.key ∧ ino.data ∈ s.committed fo.key := by
+  obtain ⟨ino, h1, h2⟩ := hi.fileIno f fo hf
+  exact ⟨ino, h1, h2, hi.inoComm _ ino _ h1 h2⟩
+
+theorem Inv.visible_committed {s : State} (hi : Inv s) {r : Nat} {rd : Reader} (hr : s.readers[r]? = some rd)
+    (ho : rd.phase = .opened) : ∃ v : Bytes, s.visible rd = some v ∧ v ∈ s.committed rd.key := by
+  cases hs : rd.src with
+  | mem b rc =>
+    obtain ⟨x, h1, h2, h3, h4⟩ := hi.reader_mem_alive hr ho hs
+    obtain ⟨bf, g1, _, g3⟩ := hi.buf rc x h1 h4
+    refine ⟨bf.data, ?_, by rw [← h3]; exact g3⟩
+    simp only [State.visible, hs]; rw [← h2, g1]; rfl
+  | fdc f rc =>
+    obtain ⟨x, h1, h2, h3, h4⟩ := hi.reader_fd_alive hr ho hs
+    obtain ⟨fo, g1, _, g3, g4⟩ := hi.file rc x h1 h4
+    obtain ⟨ino, k1, _, k3⟩ := hi.file_committed g1
+    refine ⟨ino.data, ?_, by rw [← h3, ← g4]; exact k3⟩
+    simp only [State.visible, hs]; rw [← h2, g1]; simp [g3, k1]
+  | own f d =>
+    have hok := hi.rd r rd hr
+    simp only [RdOk, ho, hs] at hok
+    obtain ⟨fo, g1, _, g3, g4⟩ := hok
+    obtain ⟨ino, k1, _, k3⟩ := hi.file_committed g1
+    refine ⟨ino.data, ?_, by rw [← g4]; exact k3⟩
+    simp only [State.visible, hs]; rw [g1]; simp [g3, k1]
+
+/-- a published inode is never written again. -/
+theorem Inv.pub_immutable_step? {s s' : State} {a : Step} (hi : Inv s) (h : s.step? a = some s')
+    {i : Nat} {ino : Inode} {k : Nat} (hino : s.inodes[i]? = some ino) (hst : ino.st = .pub k) :
+    s'.inodes[i]? = some ino := by
+  have hset : ∀ (w : Nat) (wr : Writer) (x : Inode), s.writers[w]? = some wr →
+      (∃ ino0 : Inode, s.inodes[wr.wip]? = some ino0 ∧ ino0.st = .wip w) →
+      (s.inodes.set wr.wip x)[i]? = some ino := by
+    intro w wr x _ hw
+    obtain ⟨ino0, h1, h2⟩ := hw
+    have : i ≠ wr.wip := by
+      intro hc; subst hc
+      rw [hino] at h1; simp at h1; subst h1
+      rw [hst] at h2; cases h2
+    rw [set_get_ne this]; exact hino
+  cases a with
+  | addOpen k0 o reuse =>
+    simp only [State.step?, State.addOpen] at h
+    split at h
+    · simp at h; subst h; exact append_get_old hino
+    · split at h
+      · simp at h; subst h; exact append_get_old hino
+      · split at h
+        · split at h
+          · simp at h; subst h; exact append_get_old hino
+          · simp at h
+        · simp at h
+  | write w p =>
+    simp only [State.step?, State.write] at h
+    split at h
+    · rename_i wr hw
+      split at h
+      · rename_i hph
+        have hok := hi.wr w wr hw
+        simp only [WrOk, hph.1] at hok
+        split at h
+        · rename_i hd
+          simp only [hd, if_true] at hok
+          obtain ⟨ino0, h1, h2, _⟩ := hok
+          split at h
+          · simp at h; subst h; exact hset w wr _ hw ⟨ino0, h1, h2⟩
+          · simp at h
+        · split at h
+          · simp at h; subst h; exact hino
+          · simp at h
+      · simp at h
+    · simp at h
+  | commitMemPublish w =>
+    simp only [State.step?, State.commitMemPublish] at h
+    split at h
+    · split at h
+      · split at h
+        · simp at h; subst h; exact hino
+        · simp at h
+      · simp at h
+    · simp at h
+  | commitDiskWrite w f =>
+    simp only [State.step?, State.commitDiskWrite] at h
+    split at h
+    · rename_i wr hw
+      split at h
+      · rename_i rc hph
+        have hok := hi.wr w wr hw
+        simp only [WrOk, hph] at hok
+        obtain ⟨_, _, ino0, h1, h2, _⟩ := hok
+        split at h
+        · split at h
+          · split at h
+            · simp at h; subst h; exact hset w wr _ hw ⟨ino0, h1, h2⟩
+            · simp at h; subst h; exact hset w wr _ hw ⟨ino0, h1, h2⟩
+          · simp at h
+        · simp at h
+      · simp at h
+    · simp at h
+  | commitRename w =>
+    simp only [State.step?, State.commitRename] at h
+    split at h
+    · rename_i wr hw
+      split at h
+      · have hok := hi.wr w wr hw
+        split at h
+        · rename_i rc hph
+          simp only [WrOk, hph] at hok
+          obtain ⟨_, ino0, h1, h2, _⟩ := hok
+          simp at h; subst h; exact hset w wr _ hw ⟨ino0, h1, h2⟩
+        · rename_i hph
+          split at h
+          · rename_i hd
+            simp only [WrOk, hph, hd, if_true] at hok
+            obtain ⟨ino0, h1, h2, _⟩ := hok
+            simp at h; subst h; exact hset w wr _ hw ⟨ino0, h1, h2⟩
+          · simp at h
+        · simp at h
+      · simp at h
+    · simp at h
+  | commitDone w =>
+    simp only [State.step?, State.commitDone] at h
+    split at h
+    · split at h
+      · simp at h; subst h; exact hino
+      · simp at h
+    · simp at h
+  | abort w =>
+    simp only [State.step?, State.abort] at h
+    split at h
+    · split at h
+      · split at h
+        · simp at h; subst h; exact hino
+        · simp at h; subst h; exact hino
+      · simp at h
+    · simp at h
+  | closeWriter w =>
+    simp only [State.step?, State.closeWriter] at h
+    split at h
+    · simp at h; subst h; exact hino
+    · simp at h
+  | getMem k0 o =>
+    simp only [State.step?, State.getMem] at h
+    split at h
+    · simp at h
+    · split at h
+      · split at h
+        · simp at h; subst h; exact hino
+        · simp at h
+      · simp at h
+  | getFd k0 o =>
+    simp only [State.step?, State.getFd] at h
+    split at h
+    · simp at h
+    · split at h
+      · split at h
+        · simp at h; subst h; exact hino
+        · simp at h
+      · simp at h
+  | getOpen k0 o =>
+    simp only [State.step?, State.getOpen] at h
+    split at h
+    · simp at h; subst h; exact hino
+    · simp at h
+  | read r =>
+    simp only [State.step?, State.read] at h
+    split at h
+    · split at h
+      · simp at h; subst h; exact hino
+      · simp at h
+    · simp at h
+  | closeReader r =>
+    simp only [State.step?, State.closeReader] at h
+    split at h
+    · split at h
+      · split at h
+        · simp at h; subst h; exact hino
+        · simp at h; subst h; exact hino
+        · simp at h; subst h; exact hino
+        · split at h
+          · simp at h; subst h; exact hino
+          · simp at h
+      · simp at h
+    · simp at h
+  | closeReaderDone r =>
+    simp only [State.step?, State.closeReaderDone] at h
+    split at h
+    · split at h
+      · simp at h; subst h; exact hino
+      · simp at h
+    · simp at h
+
+theorem Inv.pub_immutable_step {s : State} (a : Step) (hi : Inv s)
+    {i : Nat} {ino : Inode} {k : Nat} (hino : s.inodes[i]? = some ino) (hst : ino.st = .pub k) :
+    (s.step a).inodes[i]? = some ino := by
+  unfold State.step
+  cases h : s.step? a with
+  | none => exact hino
+  | some s' => exact hi.pub_immutable_step? h hino hst
+
+theorem Inv.pub_immutable_run {s : State} (steps : List Step) (hi : Inv s)
+    {i : Nat} {ino : Inode} {k : Nat} (hino : s.inodes[i]? = some ino) (hst : ino.st = .pub k) :
+    (s.run steps).inodes[i]? = some ino := by
+  induction steps generalizing s with
+  | nil => exact hino
+  | cons a t ih => exact ih (hi.step a) (hi.pub_immutable_step a hino hst)
+
+/-! ## Part C — `MemoryCache` -/
+
+namespace MemCache
+
+structure MInv (s : MState) : Prop where
+  wr : ∀ (w : Nat) (wr : MWriter), s.writers[w]? = some wr → wr.opened = true →
+    ∃ d : MBuf, s.bufs[wr.buf]? = some d ∧ d.owner = some w ∧ d.data = wr.written
+  map : ∀ (k b : Nat), s.membuf k = some b →
+    ∃ d : MBuf, s.bufs[b]? = some d ∧ d.owner = none ∧ d.data ∈ s.committed k
+  rd : ∀ (r : Nat) (rd : MReader), s.readers[r]? = some rd →
+    ∃ d : MBuf, s.bufs[rd.buf]? = some d ∧ d.owner = none ∧ d.data ∈ s.committed rd.key
+  comm : ∀ (k : Nat) (v : Bytes), v ∈ s.committed k →
+    ∃ (w : Nat) (wr : MWriter), s.writers[w]? = some wr ∧ wr.key = k ∧ wr.written = v ∧ wr.opened = false
+
+theorem MInv.init : MInv {} := by
+  refine ⟨?_, ?_, ?_, ?_⟩ <;> simp
+
+theorem MInv.step? {s s' : MState} {a : MStep} (hi : MInv s) (h : s.step? a = some s') : MInv s' := by
+  cases a with
+  | add k =>
+    simp only [MState.step?, MState.add, Option.some.injEq] at h; subst h
+    refine ⟨?_, ?_, ?_, ?_⟩
+    · intro w wr hw ho
+      rw [append_some_iff] at hw
+      rcases hw with hw | ⟨rfl, rfl⟩
+      · obtain ⟨d, h1, h2⟩ := hi.wr w wr hw ho
+        exact ⟨d, append_get_old h1, h2⟩
+      · exact ⟨_, append_get_new, rfl, rfl⟩
+    · intro k0 b hb
+      obtain ⟨d, h1, h2⟩ := hi.map k0 b hb
+      exact ⟨d, append_get_old h1, h2⟩
+    · intro r rd hr
+      obtain ⟨d, h1, h2⟩ := hi.rd r rd hr
+      exact ⟨d, append_get_old h1, h2⟩
+    · intro k0 v hv
+      obtain ⟨w, wr, h1, h2⟩ := hi.comm k0 v hv
+      exact ⟨w, wr, append_get_old h1, h2⟩
+  | write w p =>
+    simp only [MState.step?, MState.write] at h
+    split at h
+    · rename_i wr hw
+      split at h
+      · rename_i hopen
+        obtain ⟨d0, hd0, hown0, hdata0⟩ := hi.wr w wr hw hopen
+        simp only [hd0, Option.some.injEq] at h; subst h
+        have hother : ∀ (b : Nat) (d : MBuf), s.bufs[b]? = some d → d.owner ≠ some w →
+            (s.bufs.set wr.buf { d0 with data := d0.data ++ p })[b]? = some d := by
+          intro b d hb hne
+          have : b ≠ wr.buf := by
+            intro hc; subst hc
+            rw [hd0] at hb; simp at hb; subst hb
+            exact hne hown0
+          rw [set_get_ne this]; exact hb
+        refine ⟨?_, ?_, ?_, ?_⟩
+        · intro w' wr' hw' ho'
+          rw [set_some_iff] at hw'
+          rcases hw' with ⟨rfl, _, rfl⟩ | ⟨hne, hw'⟩
+          · exact ⟨_, set_get_self (lt_of_get_some hd0), hown0, by simp [hdata0]⟩
+          · obtain ⟨d, h1, h2, h3⟩ := hi.wr w' wr' hw' ho'
+            exact ⟨d, hother _ d h1 (by rw [h2]; intro hc; simp at hc; exact hne hc), h2, h3⟩
+        · intro k0 b hb
+          obtain ⟨d, h1, h2, h3⟩ := hi.map k0 b hb
+          exact ⟨d, hother _ d h1 (by rw [h2]; simp), h2, h3⟩
+        · intro r rd hr
+          obtain ⟨d, h1, h2, h3⟩ := hi.rd r rd hr
+          exact ⟨d, hother _ d h1 (by rw [h2]; simp), h2, h3⟩
+        · intro k0 v hv
+          obtain ⟨w', wr', h1, h2, h3, h4⟩ := hi.comm k0 v hv
+          have : w' ≠ w := by
+            intro hc; subst hc
+            rw [hw] at h1; simp at h1; subst h1
+            rw [hopen] at h4; simp at h4
+          exact ⟨w', wr', by rw [set_get_ne this]; exact h1, h2, h3, h4⟩
+      · simp at h
+    · simp at h
+  | commit w =>
+    simp only [MState.step?, MState.commit] at h
+    split at h
+    · rename_i wr hw
+      split at h
+      · rename_i hopen
+        obtain ⟨d0, hd0, hown0, hdata0⟩ := hi.wr w wr hw hopen
+        simp only [hd0, Option.some.injEq] at h; subst h
+        have hle := CmLe.add s.committed wr.key wr.written
+        have hother : ∀ (b : Nat) (d : MBuf), s.bufs[b]? = some d → d.owner ≠ some w →
+            (s.bufs.set wr.buf { d0 with owner := none })[b]? = some d := by
+          intro b d hb hne
+          have : b ≠ wr.buf := by
+            intro hc; subst hc
+            rw [hd0] at hb; simp at hb; subst hb
+            exact hne hown0
+          rw [set_get_ne this]; exact hb
+        refine ⟨?_, ?_, ?_, ?_⟩
+        · intro w' wr' hw' ho'
+          rw [set_some_iff] at hw'
+          rcases hw' with ⟨rfl, _, rfl⟩ | ⟨hne, hw'⟩
+          · simp at ho'
+          · obtain ⟨d, h1, h2, h3⟩ := hi.wr w' wr' hw' ho'
+            exact ⟨d, hother _ d h1 (by rw [h2]; intro hc; simp at hc; exact hne hc), h2, h3⟩
+        · intro k0 b hb
+          simp only at hb
+          split at hb
+          · rename_i hk
+            simp at hb; subst hb; subst hk
+            exact ⟨_, set_get_self (lt_of_get_some hd0), rfl, by simp only; rw [hdata0]; exact mem_addCommitted _ _ _⟩
+          · obtain ⟨d, h1, h2, h3⟩ := hi.map k0 b hb
+            exact ⟨d, hother _ d h1 (by rw [h2]; simp), h2, hle _ _ h3⟩
+        · intro r rd hr
+          obtain ⟨d, h1, h2, h3⟩ := hi.rd r rd hr
+          exact ⟨d, hother _ d h1 (by rw [h2]; simp), h2, hle _ _ h3⟩
+        · intro k0 v hv
+          simp only [addCommitted] at hv
+          have hold : ∀ v, v ∈ s.committed k0 → ∃ (w0 : Nat) (wr0 : MWriter),
+              (s.writers.set w { wr with opened := false })[w0]? = some wr0 ∧ wr0.key = k0 ∧ wr0.written = v ∧
+                wr0.opened = false := by
+            intro v hv
+            obtain ⟨w', wr', h1, h2, h3, h4⟩ := hi.comm k0 v hv
+            have : w' ≠ w := by
+              intro hc; subst hc
+              rw [hw] at h1; simp at h1; subst h1
+              rw [hopen] at h4; simp at h4
+            exact ⟨w', wr', by rw [set_get_ne this]; exact h1, h2, h3, h4⟩
+          split at hv
+          · rename_i hk
+            rw [List.mem_append] at hv
+            rcases hv with hv | hv
+            · exact hold v hv
+            · simp at hv; subst hv
+              exact ⟨w, _, set_get_self (lt_of_get_some hw), hk.symm, rfl, rfl⟩
+          · exact hold v hv
+      · simp at h
+    · simp at h
+  | abort w =>
+    simp only [MState.step?, MState.abort] at h
+    split at h
+    · rename_i wr hw
+      split at h
+      · rename_i hopen
+        simp only [Option.some.injEq] at h; subst h
+        refine ⟨?_, hi.map, hi.rd, ?_⟩
+        · intro w' wr' hw' ho'
+          rw [set_some_iff] at hw'
+          rcases hw' with ⟨rfl, _, rfl⟩ | ⟨hne, hw'⟩
+          · simp at ho'
+          · exact hi.wr w' wr' hw' ho'
+        · intro k0 v hv
+          obtain ⟨w', wr', h1, h2, h3, h4⟩ := hi.comm k0 v hv
+          have : w' ≠ w := by
+            intro hc; subst hc
+            rw [hw] at h1; simp at h1; subst h1
+            rw [hopen] at h4; simp at h4
+          exact ⟨w', wr', by rw [set_get_ne this]; exact h1, h2, h3, h4⟩
+      · simp at h
+    · simp at h
+  | get k =>
+    simp only [MState.step?, MState.get] at h
+    split at h
+    · rename_i b hb
+      simp only [Option.some.injEq] at h; subst h
+      refine ⟨hi.wr, hi.map, ?_, hi.comm⟩
+      intro r rd hr
+      rw [append_some_iff] at hr
+      rcases hr with hr | ⟨_, rfl⟩
+      · exact hi.rd r rd hr
+      · exact hi.map k b hb
+    · simp at h
+
+theorem MInv.step {s : MState} (a : MStep) (hi : MInv s) : MInv (s.step a) := by
+  unfold MState.step
+  cases h : s.step? a with
+  | none => exact hi
+  | some s' => exact hi.step? h
+
+theorem MInv.run {s : MState} (steps : List MStep) (hi : MInv s) : MInv (s.run steps) := by
+  induction steps generalizing s with
+  | nil => exact hi
+  | cons a t ih => exact ih (hi.step a)
+
+end MemCache
+
 end SV.ChunkCache
